@@ -10,7 +10,7 @@
 //! The exponential distribution `Exp(λ)`.
 
 use crate::utils::ziggurat;
-use crate::{Distribution, ziggurat_tables};
+use crate::{Distribution, OpenClosed01, ziggurat_tables};
 use core::fmt;
 use num_traits::Float;
 use rand::{Rng, RngExt};
@@ -71,7 +71,8 @@ impl Distribution<f64> for Exp1 {
         }
         #[inline]
         fn zero_case<R: Rng + ?Sized>(rng: &mut R, _u: f64) -> f64 {
-            ziggurat_tables::ZIG_EXP_R - rng.random::<f64>().ln()
+            // draw from (0, 1]: a draw of exactly 0 would give an infinite sample
+            ziggurat_tables::ZIG_EXP_R - rng.sample::<f64, _>(OpenClosed01).ln()
         }
 
         ziggurat(
